@@ -217,6 +217,11 @@ func SolveAll(g *Gen, header string, results []*FnResult, outDir string, par int
 	return out
 }
 
+// SkipRetry, when set, names obligations that are not given the second chance below: a property check sets it for the
+// obligations recorded in KNOWN_FINDINGS.json, which are expected to stay undischarged (the regular portfolio still runs
+// on them, so a finding that has been repaired is noticed; only the three-fold retry is saved).
+var SkipRetry func(obligation string) bool
+
 // retryTimeouts gives obligations on which every solver ran out of time a second chance: solver time depends on
 // the load of the machine, and a timeout must not be reported as a failed obligation just because sixteen
 // solver processes (or other jobs) were competing for the cores. At most 40 of them are re-run, four at a time,
@@ -225,6 +230,9 @@ func retryTimeouts(out []*SolveResult, timeoutS int) {
 	var idx []int
 	for i, r := range out {
 		if r != nil && r.Status == "timeout" {
+			if SkipRetry != nil && r.Obl != nil && SkipRetry(r.Obl.Name) {
+				continue
+			}
 			idx = append(idx, i)
 		}
 	}
